@@ -107,3 +107,37 @@ Print Assumptions C18_negotiate_acceptable.
 Theorem C18_negotiate_unique_without_ties : forall h a, header_no_ties h = true -> negotiate_acceptable h a = true -> a = spec_negotiate h.
 Proof. exact negotiate_acceptable_unique. Qed.
 Print Assumptions C18_negotiate_unique_without_ties.
+
+(* MappingServiceGraph.triples, for every function standing for _expand_pair_all, every list of configured predicates and every
+   triple pattern (positions bound or variable).  The run compares what graph.triples yields on the implementation with
+   `triples` pattern by pattern.  (Defect D10 of the unchanged code violated the first three.) *)
+From Curies.proofs Require Import TriplesFacts.
+Theorem C18_triples_match : forall eqv preds pat t, In t (triples eqv preds pat) -> tmatch pat t = true.
+Proof. exact triples_match. Qed.
+Print Assumptions C18_triples_match.
+Theorem C18_triples_configured_irrelevant : forall eqv preds s p o,
+  In p preds -> triples eqv preds (s, Some p, o) = triples eqv [p] (s, Some p, o).
+Proof. exact triples_configured_irrelevant. Qed.
+Print Assumptions C18_triples_configured_irrelevant.
+Theorem C18_triples_objects : forall eqv preds s p, In p preds -> map snd (triples eqv preds (Some s, Some p, None)) = eqv s.
+Proof. exact triples_objects. Qed.
+Print Assumptions C18_triples_objects.
+Theorem C18_triples_subjects : forall eqv preds p o,
+  In p preds -> map (fun t : triple => fst (fst t)) (triples eqv preds (None, Some p, Some o)) = eqv o.
+Proof. exact triples_subjects. Qed.
+Print Assumptions C18_triples_subjects.
+Theorem C18_triples_other_predicate : forall eqv preds s p o, ~ In p preds -> triples eqv preds (s, Some p, o) = [].
+Proof. exact triples_other_predicate. Qed.
+Print Assumptions C18_triples_other_predicate.
+Theorem C18_triples_both_or_neither : forall eqv preds p (s o : option str), (s = None <-> o = None) -> triples eqv preds (s, p, o) = [].
+Proof. exact triples_both_or_neither. Qed.
+Print Assumptions C18_triples_both_or_neither.
+Theorem C18_triples_symmetric : forall eqv preds p u x,
+  In (x, p, u) (triples eqv preds (None, Some p, Some u)) <-> In (u, p, x) (triples eqv preds (Some u, Some p, None)).
+Proof. exact triples_symmetric. Qed.
+Print Assumptions C18_triples_symmetric.
+(* the configured predicates really are the ones a non-trivial case uses: two predicates, a recognised URI *)
+Example C18_triples_example :
+  triples (fun u => [u; 120%N :: u]) [[112]%N; [113]%N] (Some [117]%N, Some [113]%N, None)
+  = [([117]%N, [113]%N, [117]%N); ([117]%N, [113]%N, [120; 117]%N)].
+Proof. vm_compute. reflexivity. Qed.
